@@ -177,6 +177,10 @@ def rule_indent(prog, rep):
         rows = [(_strip(a), return_value_on_path(clo, p) or "") for a, _r, p in enum_paths(clo)]
         first = [v for a, v in rows if any(f[0] == "cmp" and f[1] == "Eq" and f[2] == "arg2.0" and f[3] == "const:0" and f[4] is True for f in a)]
         rest = [v for a, v in rows if any(f[0] == "cmp" and f[1] == "Eq" and f[2] == "arg2.0" and f[3] == "const:0" and f[4] is False for f in a)]
+        other_idx = sorted(set(f[3] for a, _v in rows for f in a if f[0] == "cmp" and f[2] == "arg2.0" and str(f[3]).startswith("const:") and f[3] != "const:0"))
+        if other_idx:
+            rep.finding("C06.INDENT", clo.name, "first-line-index", "the line that keeps its indentation is selected by comparing its index with %s; BlockStringValue() treats exactly the first line (index 0) specially" % other_idx, clo.loc())
+            continue
         if len(rows) != 2 or len(first) != 1 or len(rest) != 1:
             rep.note("C06.INDENT: the line-mapping closure is not `if index == 0 {..} else {..}`; not judged")
             continue
